@@ -35,8 +35,8 @@ def tree_hash(repo: str = REPO) -> str:
     return h.hexdigest()[:20]
 
 
-def cache_dir() -> str:
-    par = os.environ.get("PANDORA_NUMBA_PARALLEL", "True")
+def cache_dir(par: str = None) -> str:
+    par = par or os.environ.get("PANDORA_NUMBA_PARALLEL", "True")
     return os.path.join(VERIF_DIR, ".cache", "numba", f"{tree_hash()}-{par}")
 
 
@@ -85,11 +85,25 @@ def bootstrap() -> None:
 
     _orig = numba.njit
 
+    # kernels that receive another jitted function as argument cannot be cached reliably (the argument's type is
+    # identity based: every process misses the cache, recompiles, and pickling the result can fail)
+    no_cache = {"loop_refinement", "loop_approximate_refinement"}
+
     def njit(*args, **kwargs):
         if len(args) == 1 and callable(args[0]) and not kwargs:
+            if args[0].__name__ in no_cache:
+                return _orig(args[0])
             return _orig(cache=True)(args[0])
-        kwargs.setdefault("cache", True)
-        return _orig(*args, **kwargs)
+        if kwargs.get("cache"):
+            return _orig(*args, **kwargs)
+        inner = _orig(*args, **kwargs)
+
+        def deco(fn):
+            if getattr(fn, "__name__", "") in no_cache:
+                return inner(fn)
+            return _orig(*args, **dict(kwargs, cache=True))(fn)
+
+        return deco
 
     numba.njit = njit
     import logging
